@@ -489,7 +489,7 @@ def run_one(ctl: explorer.Ctl, cfg: Dict[str, Any]) -> Dict[str, Any]:
     if status != "ok":
         if isinstance(val, core.HarnessError):
             raise val
-        raise core.HarnessError(f"history {codes} did not complete: {status} {val!r}")
+        raise core.HarnessError(f"history {codes} did not complete: {status} {core.clean_repr(val)}")
     if errors:
         raise core.HarnessError(f"history {codes}: event loop reported {errors[:2]}")
     base = out["base"]
